@@ -406,4 +406,9 @@ def roundtrip_bad(utils, W):
                 r, e = call(utils.bin_to_int, t, lend)
                 if r != i:
                     bad.append((i, w, lend, "roundtrip", r))
+                lst = list(t)  # a list argument must be decoded like the tuple and must not be modified
+                r1, _ = call(utils.bin_to_int, lst, lend)
+                r2, _ = call(utils.bin_to_int, lst, lend)
+                if r1 != i or r2 != i or lst != list(t):
+                    bad.append((i, w, lend, "list-argument", (r1, r2)))
     return bad
